@@ -45,11 +45,13 @@ PROPS = {
                  'min(target + offset, input - path loss) with the target of the egress degree if set else of the node '
                  '(constant power, PSD x baud rate, PSW x slot width), never with more power than it entered; PMD/PDL in '
                  'quadrature; shares untouched.',
-        'level_note': 'get_impairment is an assumed contract (one value per channel, max loss >= 0); single-policy '
-                      'enforcement at load/design time (RoadmParams, merge_equalization, set_roadm_per_degree_targets) '
-                      'is not yet under contract',
+        'level_note': 'get_impairment is an assumed contract in the proof of Roadm.propagate (one value per channel, max loss >= 0): '
+                      'that each add / drop / express crossing reads the impairment set of its own type (or the set declared for '
+                      'that pair of degrees) is a bounded stand-in on designed meshes; single-policy enforcement is proved for '
+                      'RoadmParams.__init__ (a target of 0 is a target) and for the per-degree design loop '
+                      '(set_roadm_per_degree_targets), merge_equalization is not under contract',
         'trusted': NUMPY_TRUST + ['Roadm.get_impairment (assumed contract)'],
-        'extra': [],
+        'extra': [{'name': 'roadm_paths', 'kind': 'bounded', 'script': 'bounded/roadm_paths.py', 'timeout': 1200}],
     },
     'C07': {
         'level': 'proof',
